@@ -8,8 +8,31 @@ import (
 	"encoding/hex"
 	"encoding/json"
 	"fmt"
+	"io"
 	"testing"
+
+	"github.com/libp2p/go-libp2p/core/host"
+	"github.com/libp2p/go-libp2p/core/network"
+	"github.com/libp2p/go-libp2p/core/protocol"
+	"github.com/primevprotocol/mev-commit/pkg/p2p"
+	"github.com/primevprotocol/mev-commit/pkg/util"
 )
+
+// the match functions as the node registers them: AddStreamHandlers on a Service whose libp2p
+// host only records what it is handed
+type c16Host struct {
+	host.Host
+	matches []func(protocol.ID) bool
+}
+
+func (h *c16Host) SetStreamHandlerMatch(_ protocol.ID, m func(protocol.ID) bool, _ network.StreamHandler) {
+	h.matches = append(h.matches, m)
+}
+
+type c16Desc struct {
+	Name    string `json:"name"`    // hex
+	Version string `json:"version"` // hex
+}
 
 type c16Claim struct {
 	Iname string `json:"iname"`
@@ -25,6 +48,10 @@ type c16In struct {
 	Name     string    `json:"name"`
 	Version  string    `json:"version"`
 	Claim    *c16Claim `json:"claim,omitempty"`
+	// when set: the descriptors registered by ONE AddStreamHandlers call; the query goes to the
+	// match function registered for descriptor number Index (whose name/version are Name/Version)
+	Group []c16Desc `json:"group,omitempty"`
+	Index int       `json:"index,omitempty"`
 }
 type c16Obs struct {
 	Match bool `json:"match"`
@@ -42,6 +69,18 @@ func c16Run(in c16In) (obs c16Obs) {
 		}
 	}()
 	m, err := matchProtocolIDWithSemver(string(inc), string(name), string(ver))
+	if len(in.Group) > 0 {
+		fh := &c16Host{}
+		svc := &Service{host: fh, logger: util.NewTestLogger(io.Discard)}
+		var descs []p2p.StreamDesc
+		for _, d := range in.Group {
+			n, _ := hex.DecodeString(d.Name)
+			v, _ := hex.DecodeString(d.Version)
+			descs = append(descs, p2p.StreamDesc{Name: string(n), Version: string(v)})
+		}
+		svc.AddStreamHandlers(descs...)
+		m = fh.matches[in.Index](protocol.ID(inc))
+	}
 	return c16Obs{Match: m, Err: err != nil}
 }
 
@@ -102,6 +141,35 @@ func TestVerifC16(t *testing.T) {
 		}
 		nm := names[rng.intn(len(names))]
 		claim(nm[0], nm[1], iM, im, pick(), hM, hm, pick())
+	}
+	// several protocols registered by one call, each with its own version: every registered match
+	// function must apply its own descriptor's version
+	for i := 0; i < vcount(150, 3000); i++ {
+		k := 2 + rng.intn(3)
+		var group []c16Desc
+		type dv struct {
+			name    string
+			M, m, p uint64
+		}
+		var ds []dv
+		for j := 0; j < k; j++ {
+			d := dv{[]string{"alpha", "beta", "gamma", "alpha"}[rng.intn(4)], uint64(rng.intn(3)), uint64(rng.intn(4)), uint64(rng.intn(3))}
+			ds = append(ds, d)
+			group = append(group, c16Desc{hx(d.name), hx(fmt.Sprintf("%d.%d.%d", d.M, d.m, d.p))})
+		}
+		for idx, d := range ds {
+			for q := 0; q < 3; q++ {
+				iname := d.name
+				if rng.chance(15) {
+					iname = "beta"
+				}
+				iM, im, ip := uint64(rng.intn(3)), uint64(rng.intn(4)), uint64(rng.intn(3))
+				in := c16In{Incoming: hx(fmt.Sprintf("/%s/%d.%d.%d", iname, iM, im, ip)), Name: hx(d.name),
+					Version: hx(fmt.Sprintf("%d.%d.%d", d.M, d.m, d.p)), Claim: &c16Claim{hx(iname), iM, im, ip, d.M, d.m, d.p},
+					Group: group, Index: idx}
+				out.emit(in, c16Run(in))
+			}
+		}
 	}
 	// malformed identifiers (raw)
 	raws := []string{"", "/", "//", "///", "a", "/a", "/a/", "a/b/c", "/discovery/1.0.0/x", "/discovery",
